@@ -84,21 +84,26 @@ theorem C16_session_needs_connection (c : Config) (ops : List Op) :
 
 /-! ## loss resets the server-derived state -/
 
-/-- FULL STATEMENT (violated, see the counterexample): for every state and every operation, if the operation
-    reports the server connection CLOSED then afterwards no tracked user, user, room, distributed parameter or
-    session is stored.  Proved for every operation except an accepted login whose burst is cut by a write failure
-    (`loginCut` with `j < |burst|`, KNOWN FINDING). -/
-theorem C16_reset_partial (c : Config) (st : State) (op : Op) (hop : ∀ j d res ul, op ≠ .loginCut j d res ul)
+/-- FULL STRENGTH (the former `C16_reset_partial` / `C16_reset_counterexample` pair — known finding
+    `C16-residual-tracking-after-write-failure-in-burst` — is repaired by fixes/C16-session-destroyed-during-login
+    and fixes/C16-tracking-cancel-lost-in-failed-write): for every state and EVERY operation of the alphabet —
+    including a login interrupted before the reply or at any write of the burst by a write failure, a close by
+    another task, `stop()` or a server-side EOF, a loss during which a listener of the application is suspended,
+    and a failed reconnect of the application — if the operation reports the server connection CLOSED then
+    afterwards no tracked user, user, room, distributed parameter or session is stored. -/
+theorem C16_reset (c : Config) (st : State) (op : Op)
     (h : obsClosed (step c st op).2 = true) : cleared (step c st op).1 :=
-  reset_step c st op hop h
+  reset_step c st op h
 
-/-- Known finding: the burst write #2 fails; the user listener still runs and tracks the own name and the friends
-    on the destroyed session (witness replayed on the real code on every run). -/
-theorem C16_reset_counterexample :
+/-- the witness of the former known finding: the burst write #2 fails; nothing is tracked afterwards, `login()`
+    returns normally, the session was initialised and destroyed (replayed on the real code on every run as a
+    directed case) -/
+example :
     let c : Config := { friends := ["f1", "f2"], clearPort := 60000 }
     let st : State := { conn := .connected, started := true, ping := true }
-    let r := step c st (.loginCut 1 1 (typicalResidual c 1) true)
-    obsClosed r.2 = true ∧ r.1.tracked = ["me", "f1", "f2"] ∧ ¬ cleared r.1 := by
+    let r := step c st (.loginBreak (some 1) 1 .writeFail)
+    obsClosed r.2 = true ∧ r.1.tracked = [] ∧ cleared r.1 ∧ nInit r.2 = 1 ∧ nDestr r.2 = 1 ∧
+    Obs.loginResult .ok ∈ r.2 := by
   decide
 
 /-! ## reconnect iff auto ∧ reason ∉ {REQUESTED, EOF} ∧ credentials ∧ not stopped
@@ -158,69 +163,104 @@ theorem C16_reconnect_iff (c : Config) (ops : List Op) (r : Reason) :
     (Obs.loginSent ∈ obs ↔
       (c.reconnectAuto = true ∧ r ≠ .requested ∧ r ≠ .eof ∧ c.credsOk = true ∧ st.srvUp = true)) := by
   intro st hc hv hr obs
-  have hi : Inv st := inv_run c ops init inv_init
   have hw : WInv c st := winv_run c ops init (winv_init c) inv_init
   obtain ⟨k1, k2, k3, k4, k5⟩ := closeServer_connected r st hc
   have hobs : obs = (closeServer r st).2 ++
       (run c (closeServer r st).1 (List.replicate (reconnectTicks + 1) .tick)).2 :=
     loss_ticks_obs c st r _ hc hv hr
-  by_cases cond : c.reconnectAuto = true ∧ r ≠ .requested ∧ r ≠ .eof ∧ c.credsOk = true
-  · obtain ⟨ha, hq, he, hk⟩ := cond
-    have hidle : (closeServer r st).1.wd = .idle := by
-      rw [k2]; simp [hq, he, hw.2 hc ha]
-    obtain ⟨s2, hs2, hs3⟩ := idle_reconnect_obs c (closeServer r st).1 hidle k1 hk
-    have hro := reconnect_obs_attempt c s2
-    rw [hobs, hs2]
-    refine ⟨?_, ?_⟩
-    · simp [ha, hq, he, hk, hro.1]
-    · simp only [List.mem_append, k5, false_or, hro.2, hs3, k3]
-      simp [ha, hq, he, hk]
-  · have hquiet : (run c (closeServer r st).1 (List.replicate (reconnectTicks + 1) .tick)).2 = [] := by
-      by_cases ha : c.reconnectAuto = true
-      · by_cases hre : r = .requested ∨ r = .eof
-        · apply off_run
-          · intro op hop; simp [List.mem_replicate] at hop; subst hop; rfl
-          · rw [k2]; simp [hre]
-        · have hk : c.credsOk = false := by
-            cases hcr : c.credsOk with
-            | false => rfl
-            | true => exact absurd ⟨ha, fun e => hre (Or.inl e), fun e => hre (Or.inr e), hcr⟩ cond
-          apply nocreds_run c hk
-          rw [k2]; simp [hre, hw.2 hc ha]
-      · have hoff : st.wd = .off := by
-          cases hwd : st.wd with
-          | off => rfl
-          | idle => exact absurd (hw.1 (by simp [hwd])) ha
-          | sleeping n => exact absurd (hw.1 (by simp [hwd])) ha
-        apply off_run
-        · intro op hop; simp [List.mem_replicate] at hop; subst hop; rfl
-        · rw [k2, hoff]; simp
-    rw [hobs, hquiet]
-    simp only [List.append_nil]
-    refine ⟨⟨fun h => absurd h k4, fun h => absurd h cond⟩,
-            ⟨fun h => absurd h k5, fun h => absurd ⟨h.1, h.2.1, h.2.2.1, h.2.2.2.1⟩ cond⟩⟩
+  rw [hobs]
+  exact reconnect_law c st _ _ r hw hc k1 k2 k3 k4 k5
+
+/-- The same law when a listener of the application (CLOSED / SessionDestroyed event) stays SUSPENDED for the whole
+    reconnect delay: the watchdog reconnects and logs in while `DataConnection.disconnect` has not returned. -/
+theorem C16_reconnect_iff_held (c : Config) (ops : List Op) (r : Reason) :
+    let st := (run c init ops).1
+    st.conn = .connected → r ≠ .connectFailed → ((r = .eof ∨ r = .readError) → st.reader = true) →
+    let obs := (run c st (.lossHeld r :: List.replicate (reconnectTicks + 1) .tick)).2
+    (Obs.attempt ∈ obs ↔ (c.reconnectAuto = true ∧ r ≠ .requested ∧ r ≠ .eof ∧ c.credsOk = true)) ∧
+    (Obs.loginSent ∈ obs ↔
+      (c.reconnectAuto = true ∧ r ≠ .requested ∧ r ≠ .eof ∧ c.credsOk = true ∧ st.srvUp = true)) := by
+  intro st hc hv hr obs
+  have hw : WInv c st := winv_run c ops init (winv_init c) inv_init
+  obtain ⟨k1, k2, k3, k4, k5⟩ := closeServer_connected r st hc
+  have hobs := lossHeld_ticks_obs c st r (reconnectTicks + 1) hc hv hr
+  show (Obs.attempt ∈ (run c st (.lossHeld r :: List.replicate (reconnectTicks + 1) .tick)).2 ↔ _) ∧
+       (Obs.loginSent ∈ (run c st (.lossHeld r :: List.replicate (reconnectTicks + 1) .tick)).2 ↔ _)
+  rw [hobs]
+  exact reconnect_law c st _ _ r hw hc k1 k2 k3 k4 k5
+
+/-- When the suspended listeners return nothing else changes: the connection and the session the watchdog (or the
+    application) has established meanwhile stay as they are, no event is produced, and no reader of the old
+    stream is left (fix C16-disconnect-releases-stream-first). -/
+theorem C16_release_harmless (c : Config) (st : State) (h : st.held ≠ []) :
+    (step c st .release).2 = [] ∧ (step c st .release).1 = { st with held := [] } ∧
+    (step c st .release).1.heldReaders = 0 := by
+  simp [step, h, State.heldReaders]
 
 /-! ## stop is final -/
 
-/-- After `stop()` returns (in any reachable state of a started client): no library task is pending, no socket is
-    open, and for EVERY later sequence of operations (time passing, server coming back, even user calls) no
-    connection is attempted or opened, nothing is sent, no session appears, and it stays that way.
+/-- `stopped` is set exactly by a `stop()` that is applicable — called between operations or while a `login()` is
+    in progress (before the reply, or at any awaited write of the burst). -/
+def Op.isStop : Op → Bool
+  | .stop => true
+  | .loginBreak _ _ .stop => true
+  | _ => false
+
+/-- After `stop()` has returned — wherever it was called: in ANY reachable state, also from another task while a
+    `login()` is waiting for the reply or is suspended in any write of its post-login burst (`pre` may end with
+    `.loginBreak pos d .stop`) — no library task is pending except reader loops that are suspended inside a
+    listener of the APPLICATION (they end when the listener returns: last conjunct), no socket is open, and for
+    EVERY later sequence of operations (time passing, server coming back, even user calls) no connection is
+    attempted or opened, nothing is sent, no session appears, and it stays that way.
     (Calling `start()` again after `stop()` is outside the model: it is reported as not applicable.) -/
 theorem C16_stop_final (c : Config) (pre post : List Op) :
-    let st0 := (run c init pre).1
-    st0.started = true → st0.stopped = false →
-    let st1 := (step c st0 .stop).1
-    alive c st1 = [] ∧ openSockets st1 = 0 ∧
+    let st1 := (run c init pre).1
+    st1.stopped = true →
+    alive c st1 = List.replicate st1.heldReaders .reader ∧ openSockets st1 = 0 ∧
     (∀ o ∈ (run c st1 post).2, o = .invalid ∨ o = .refused) ∧
-    alive c (run c st1 post).1 = [] ∧ openSockets (run c st1 post).1 = 0 := by
-  intro st0 hs hp st1
-  have hi : Inv st0 := inv_run c pre init inv_init
-  have hq : Quiet st1 := by
-    show Quiet (step c st0 .stop).1
-    simp only [step, hs, hp, and_self, if_true]
-    exact quiet_doStop c st0 hi hs
+    alive c (run c st1 post).1 = List.replicate (run c st1 post).1.heldReaders .reader ∧
+    (run c st1 post).1.heldReaders ≤ st1.heldReaders ∧
+    openSockets (run c st1 post).1 = 0 ∧
+    alive c (step c (run c st1 post).1 .release).1 = [] := by
+  intro st1 hp
+  have hi : Inv (run c init pre).1 := inv_run c pre init inv_init
+  have hq : Quiet st1 := stopinv_run c pre init inv_init stopinv_init hp
   have hr := quiet_run c post st1 hq
-  exact ⟨(quiet_alive c st1 hq).1, (quiet_alive c st1 hq).2, hr.2, (quiet_alive c _ hr.1).1, (quiet_alive c _ hr.1).2⟩
+  have hrel := quiet_step c (run c st1 post).1 .release hr.1
+  refine ⟨(quiet_alive c st1 hq).1, (quiet_alive c st1 hq).2, hr.2.1, (quiet_alive c _ hr.1).1, hr.2.2,
+    (quiet_alive c _ hr.1).2, ?_⟩
+  rw [(quiet_alive c _ hrel.1).1]
+  by_cases hh : (run c st1 post).1.held = []
+  · simp [step, hh, State.heldReaders]
+  · simp [step, hh, State.heldReaders]
+
+/-- `stop()` is applicable in every reachable state of a started, not yet stopped client and sets `stopped` … -/
+theorem C16_stop_applicable (c : Config) (pre : List Op) :
+    let st0 := (run c init pre).1
+    st0.started = true → st0.stopped = false → (step c st0 .stop).1.stopped = true := by
+  intro st0 hs hp
+  simp [step, hs, hp, doStop]
+
+/-- … also when it is called while a `login()` is in progress, at any of its suspension points -/
+theorem C16_stop_applicable_in_login (c : Config) (pre : List Op) (pos : Option Nat) (d : Nat) :
+    let st0 := (run c init pre).1
+    st0.conn = .connected → st0.session = false → st0.reader = false → st0.stopped = false →
+    (step c st0 (.loginBreak pos d .stop)).1.stopped = true ∧
+    Obs.invalid ∉ (step c st0 (.loginBreak pos d .stop)).2 := by
+  intro st0 hc hs hr hp
+  have hstop : ∀ s : State, (doStop c s).1.stopped = true := by intro s; simp [doStop]
+  have hinv : ∀ s : State, Obs.invalid ∉ (doStop c s).2 := by
+    intro s; simp only [doStop, closeServer]; split <;> (try split) <;> simp
+  simp only [step, hc, hs, hr, hp, and_self, if_true]
+  unfold doLoginBreak
+  cases pos with
+  | none => exact ⟨hstop _, by simp [applyBreak, hinv]⟩
+  | some j =>
+    simp only []
+    split
+    · refine ⟨hstop _, ?_⟩
+      simp [applyBreak, hinv, doLogin]
+    · exact ⟨hstop _, by simp [applyBreak, hinv]⟩
 
 /-! ## the hypotheses are satisfiable by non-trivial reachable states -/
 
@@ -241,6 +281,20 @@ example :
       .tick, .tick]).1
     -- watchdog, 3 managers' tasks, search timer, potential parent + search reply, each with 2 race children
     st0.started = true ∧ st0.stopped = false ∧ st0.wd = .sleeping 19 ∧ (alive exCfg st0).length = 11 := by decide
+
+/-- `stop()` from another task while the login after a reconnect is suspended in the 4th write of its burst: the
+    premise of `C16_stop_final` holds for this history, a session was initialised twice and destroyed twice -/
+example :
+    let r := run exCfg init [.start, .login, .search, .loss .readError, .connect, .loginBreak (some 3) 4 .stop]
+    r.1.stopped = true ∧ nInit r.2 = 2 ∧ nDestr r.2 = 2 ∧ alive exCfg r.1 = [] := by decide
+
+/-- a read error whose SessionDestroyed listener stays suspended while the watchdog reconnects and logs in; when
+    the listener returns the new session is untouched and the stale reader is gone -/
+example :
+    let r := run exCfg init ([.start, .login, .lossHeld .readError] ++ List.replicate 21 .tick)
+    let r' := step exCfg r.1 .release
+    r.1.session = true ∧ r.1.heldReaders = 1 ∧ (alive exCfg r.1).count .reader = 2 ∧
+    r'.1.session = true ∧ r'.1.conn = .connected ∧ (alive exCfg r'.1).count .reader = 1 ∧ r'.2 = [] := by decide
 
 example : exCfg.WF := by decide
 
